@@ -89,3 +89,7 @@ def register_all(reg):
     reg("C18", "thrx", "model_checking", "stateless deviation-bounded systematic scheduling of real threads (cooperative scheduler) with line-level scheduling points in the messaging code (sys.settrace)",
         "A real Agent loop thread, Messaging and InProcessCommunicationLayer with concurrent poster threads (local/remote routes, priority mixes, registration after the posts, post right before clean_shutdown): the default schedule and every schedule with <=2 (small variants) / <=1 (large variants) deviations (thorough: 3 / 2) is executed, preemption possible at every line of post_msg/next_msg/_on_computation_registration/_run/clean_shutdown; exactly-once, per-sender FIFO, priority and shutdown-drain oracles on every execution.",
         THRX_NOTE + " Line-level points only inside the traced messaging functions.", "DESIGN.md 3 C18")
+
+    reg("C27", "thrx", "fault_enumeration", "fault enumeration (every removed-agent subset) on the real threaded runtime under a cooperative scheduler, with single schedule / random-answer deviations in the repair window",
+        "For every small resilient deployment and every subset of <=k removed agents the real replication -> removal event -> repair pipeline is executed under the fair default schedule (deep cases: plus every single schedule deviation and every single random-answer deviation inside the repair window); one virtual second after the orchestrator reports the repair, directory and agents must agree that every computation runs on exactly one surviving agent that held its replica.",
+        THRX_NOTE + " One removal event per run; ample capacities; A-DSA (thorough also MGM) as non-terminating algorithm.", "DESIGN.md 3 C27")
